@@ -6,14 +6,40 @@ allocated at render time from Tokens(seed), so VERIF_SEED cannot change the set 
   text formats  docx pptx odt odp html epub rtf
       case = {"u": [[block, ...], ...], "o": {options}}      one inner list per unit (page / slide / chapter)
       block = "p" (a paragraph holding one token) | grid;  grid = [[kind, ...], ...] (rows of cells)
-      kind  = "T" one paragraph | "E" empty cell | "P" two paragraphs | "N" nested 1x1 table | "M" paragraph + nested 1x1 table
+      kind  = "T" one paragraph | "E" empty cell | "P" two paragraphs | "N" nested 1x1 table | "M" paragraph + nested 1x1 table;
+              html / epub only: a suffix "h" ("Th", "Eh", "Ph", "Nh") makes the cell a header cell <th> (same content)
       options: "hr" n (ODF table:table-header-rows), "cr" [[t, r, c, n]] / "rr" [[t, r, n]] (ODF number-columns-repeated /
-               number-rows-repeated), "html" variant of the HTML renderer, "rtf" writer options (row_props / eol)
+               number-rows-repeated), "html" spelling of the HTML renderer (a named variant or a dict, see
+               c13_helpers.html_spelling), "rtf" writer options (row_props / eol)
   spreadsheets  xlsx ods xls
       case = {"sheets": [grid, ...], "o": {options}}; grid = rows of ADM cells with ["s", k] = k-th string token,
       ["s", "literal"], ["s2", k1, k2] = two-line string; None = no cell.
       options: "cr"/"rr" (ods repeats), "rep" (ods trailing repeat option), "w" writer options (xls rk/blank_records/datemode,
-      xlsx inline_strings)
+      xlsx inline_strings/date1904)
+  histories (all formats)
+      case = {"seq": [case, case(, case)]}: the documents are written with one token source, then read one after the other
+      in ONE process; every document is judged on its own with the clauses below (the property quantifies over tables, not
+      over what was read before). Re-execution (shrinking, --replay) runs every case in a process without extraction history.
+
+Families added to the bounded space (quick / thorough):
+  H  HTML / EPUB markup spellings of one table: every td/th assignment of every grid up to 2x2 (thorough: up to 6 cells),
+     one deviating <th> in grids up to 3x3 (4x4) and the four usual header layouts (first row, first column, both, all) of
+     every shape up to 3x3 (4x4)  x  row sections {none, one tbody, thead+tbody, tbody+tfoot, thead+tbody+tfoot, one tbody
+     per row}  x  every subset of omitted optional end tags {cells, rows, sections} (text/html only); cell contents E/P/N
+     as data and header cell in the header layouts up to 2x2 (3x3) under 7 spellings incl. </p> omitted; secondary spellings
+     (white space between tags, attributes incl. unquoted, upper-case names, colgroup/col) one at a time and together;
+     paragraphs around / adjacent tables with row- and column-header cells under 6 spellings
+  T  spreadsheets: trailing rows / columns of the used range holding only falsy typed values (0, 0.0, FALSE, zero duration,
+     midnight; thorough: formulas giving them and mixed pairs): full / partial trailing row, two rows, trailing column with
+     and without the header cell, two columns, row and column, 2x1 and 1x2 sheets
+  F  spreadsheet histories: F1 the two date systems (xls DATEMODE, xlsx workbookPr/@date1904): for every date / date-time of
+     the lattice the 1900-system workbook A, the 1904-system workbook B storing the SAME serial (the date 1462 days later) and
+     the 1904-system workbook C holding the same date, all six ordered pairs at two cell positions (thorough: also x y x);
+     F2 a date / time / duration / boolean cell and the plain number cell storing the same number, both orders (xls, xlsx);
+     F3 all ordered pairs of cell kinds at one address (quick: one representative per kind, 11 x 11; thorough: the quick
+     lattice squared); F4 all ordered pairs of 4 workbooks differing in string table size and sheet count
+  E  text-format histories: all ordered pairs over the small / empty / nested 1x1 grids (thorough: also triples A B A with
+     paragraphs around)
 
 Oracle (only what the statement says):
   count:*      iterate_tables() yields exactly the source tables, in source order (a nested table may additionally come
@@ -56,7 +82,8 @@ def _p(tok):
 
 
 def _mk_cell(kind, tk):
-    """-> (ADM cell blocks, own tokens, nested tokens)"""
+    """-> (ADM cell blocks, own tokens, nested tokens); a trailing "h" (header cell, HTML <th>) does not change the content"""
+    kind = kind[0]
     if kind == "T":
         a = tk.new("C")
         return [_p(a)], [a], []
@@ -92,7 +119,10 @@ def build_text(case, tk):
                     er.append((own, nested))
                 rows.append(r)
                 erows.append(er)
-            blocks.append(["tbl", rows])
+            if any(kind.endswith("h") for row in b for kind in row):
+                blocks.append(["tbl", rows, {"th": [[kind.endswith("h") for kind in row] for row in b]}])
+            else:
+                blocks.append(["tbl", rows])
             exp.append(erows)
         units.append(["unit", blocks, {}])
     o = case.get("o") or {}
@@ -116,6 +146,8 @@ def _expand(rows, ti, cr, rr):
 
 def render_text(fmt, doc, o):
     from verif.gen import htmlfam, odf, ooxml, rtf
+    if fmt not in ("html", "epub") and any(len(b) > 2 for u in doc[2] for b in u[1] if b[0] == "tbl"):
+        raise NotImplementedError("header cells (kind suffix h) are an HTML notion")
     if fmt == "docx":
         return ooxml.docx(doc, opts=dict(o.get("docx") or {}) or None)
     if fmt == "pptx":
@@ -137,8 +169,8 @@ def render_text(fmt, doc, o):
             raise NotImplementedError("an HTML page is one unit")
         return htmlfam.html_page(H.html_blocks(doc[2][0][1], var), "t").encode("utf-8")
     if fmt == "epub":
-        if var == "implied":
-            raise NotImplementedError("XHTML has no optional end tags")
+        if not H.html_is_xml_ok(var):
+            raise NotImplementedError("XHTML has no optional end tags, upper-case names or unquoted attributes")
         return htmlfam.epub([htmlfam.xhtml_page(H.html_blocks(u[1], var), "t") for u in doc[2]], {"title": "t"})
     raise ValueError(fmt)
 
@@ -158,13 +190,18 @@ _READERS = {
 _READER_CACHE = {}
 
 
-def extract_tables(fmt, data):
-    """-> [(get_table(), (rows, columns) of get_dim()), ...] in iterate_tables() order over all yielded results"""
+def _reader(fmt):
     fn = _READER_CACHE.get(fmt)
     if fn is None:
         import importlib
         mod, name = _READERS[fmt]
         fn = _READER_CACHE[fmt] = getattr(importlib.import_module(mod), name)
+    return fn
+
+
+def extract_tables(fmt, data):
+    """-> [(get_table(), (rows, columns) of get_dim()), ...] in iterate_tables() order over all yielded results"""
+    fn = _reader(fmt)
     out = []
     for res in fn(io.BytesIO(data), "c13." + fmt):
         for t in res.iterate_tables():
@@ -454,15 +491,33 @@ def check_sheets(exp, got):
 # =============================================================================================== evaluate / reexec
 
 def evaluate(fmt, case, seed=0):
-    """Generator errors propagate (the case is not expressible: a harness matter); extractor errors are data."""
+    """Generator errors propagate (the case is not expressible: a harness matter); extractor errors are data.
+    A sequence case {"seq": [case, ...]} is a history: its documents are written with ONE token source (so the same place
+    of two documents holds different text), read one after the other in this process, and each is judged on its own."""
     tk = Tokens(seed)
+    if "seq" not in case:
+        return _evaluate_one(fmt, case, tk)
+    n = len(case["seq"])
+    docs = [_render_one(fmt, sub, tk) for sub in case["seq"]]      # all documents exist before the first one is read
+    uniq, ocs = {}, []
+    for k, (sub, (exp, data)) in enumerate(zip(case["seq"], docs)):
+        f, oc = _judge_one(fmt, sub, exp, data)
+        ocs.append(oc[0] if oc and isinstance(oc[0], tuple) else oc)
+        for cl, m in f:
+            uniq.setdefault(cl, f"document {k + 1} of {n} read one after the other in one process: {m}")
+    return list(uniq.items()), ("seq",) + tuple(ocs)
+
+
+def _render_one(fmt, case, tk):
     o = case.get("o") or {}
     if "sheets" in case:
         doc, exp = build_sheets(case, tk)
-        data = render_sheets(fmt, doc, o)
-    else:
-        doc, exp = build_text(case, tk)
-        data = render_text(fmt, doc, o)
+        return exp, render_sheets(fmt, doc, o)
+    doc, exp = build_text(case, tk)
+    return exp, render_text(fmt, doc, o)
+
+
+def _judge_one(fmt, case, exp, data):
     try:
         got = extract_tables(fmt, data)
     except Exception as e:  # noqa
@@ -472,9 +527,20 @@ def evaluate(fmt, case, seed=0):
     return check_text(exp, got)
 
 
+def _evaluate_one(fmt, case, tk):
+    exp, data = _render_one(fmt, case, tk)
+    return _judge_one(fmt, case, exp, data)
+
+
 def describe(fmt, case, seed=0):
     """written-out form of one case for the evidence file: source grids (with tokens) and what came back"""
     tk = Tokens(seed)
+    if "seq" in case:
+        return {"sequence": [_describe_one(fmt, sub, tk) for sub in case["seq"]]}
+    return _describe_one(fmt, case, tk)
+
+
+def _describe_one(fmt, case, tk):
     o = case.get("o") or {}
     if "sheets" in case:
         doc, exp = build_sheets(case, tk)
@@ -492,7 +558,40 @@ def describe(fmt, case, seed=0):
 
 
 def reexec(fmt, case):
-    return evaluate(fmt, case, int(os.environ.get("VERIF_SEED", "0") or 0))[0]
+    """Re-execute ONE case with no extraction history: in a forked child of this process, which itself never extracts
+    anything (it only imports the reader), so that the verdict on a case - in particular on a history {"seq": [...]} - is a
+    function of the case alone, whatever was re-executed before (shrinking) and in a fresh `--replay` process alike."""
+    seed = int(os.environ.get("VERIF_SEED", "0") or 0)
+    _reader(fmt)
+    from verif.gen import biff8, htmlfam, odf, ooxml, rtf  # noqa: F401  (imported here so that the children need not)
+    if not hasattr(os, "fork") or os.environ.get("VERIF_C13_NOFORK"):
+        return evaluate(fmt, case, seed)[0]
+    rd, wr = os.pipe()
+    pid = os.fork()
+    if pid == 0:
+        code = 0
+        try:
+            os.close(rd)
+            try:
+                out = {"ok": [[cl, m] for cl, m in evaluate(fmt, case, seed)[0]]}
+            except BaseException as e:  # noqa  (generator / harness problem: re-raised in the parent)
+                out = {"err": f"{type(e).__name__}: {e}"}
+            with os.fdopen(wr, "wb") as f:
+                f.write(json.dumps(out).encode("utf-8"))
+        except BaseException:  # noqa
+            code = 1
+        finally:
+            os._exit(code)
+    os.close(wr)
+    with os.fdopen(rd, "rb") as f:
+        raw = f.read()
+    os.waitpid(pid, 0)
+    if not raw:
+        raise RuntimeError("C13 reexec: the child process gave no result")
+    out = json.loads(raw.decode("utf-8"))
+    if "err" in out:
+        raise RuntimeError("C13 reexec: " + out["err"])
+    return [(cl, m) for cl, m in out["ok"]]
 
 
 # =============================================================================================== shrinking / embedding
@@ -535,6 +634,22 @@ def _shrink_opts(case):
         yield _with_opts(case, dict(o, rtf={k: v for k, v in o["rtf"].items() if k != key}))
     for key in sorted(o.get("docx") or {}):
         yield _with_opts(case, dict(o, docx={k: v for k, v in o["docx"].items() if k != key}))
+    sp = o.get("html")
+    if isinstance(sp, dict):
+        for key in sorted(sp):
+            if key == "omit":
+                for ch in sp["omit"]:
+                    yield _with_opts(case, dict(o, html=dict(sp, omit=sp["omit"].replace(ch, ""))))
+            elif key == "sec":
+                if sp["sec"] != "none":
+                    yield _with_opts(case, dict(o, html=dict(sp, sec="none")))
+                    if sp["sec"] not in ("body", "none"):
+                        yield _with_opts(case, dict(o, html=dict(sp, sec="body")))
+            elif key == "v":
+                if sp["v"] != "bare":
+                    yield _with_opts(case, dict(o, html=dict(sp, v="bare")))
+            else:
+                yield _with_opts(case, dict(o, html={k: v for k, v in sp.items() if k != key}))
 
 
 def _remap(o, ti, fr=None, fc=None, drop=False):
@@ -586,10 +701,13 @@ def _grid_shrinks(grid, cell_simpler):
 
 
 def _text_simpler(kind, i, j):
-    if kind == "M":
-        yield "N"
-    if kind != "T":
-        yield "T"
+    h = kind[1:]
+    if h:
+        yield kind[0]
+    if kind[0] == "M":
+        yield "N" + h
+    if kind[0] != "T":
+        yield "T" + h
 
 
 def _sheet_simpler(cell, i, j):
@@ -611,6 +729,18 @@ def _sheet_simpler(cell, i, j):
 
 
 def shrinks(case):
+    if "seq" in case:
+        # a failure that does not need the history is the failure of one document alone; then shorter / simpler histories
+        seq = case["seq"]
+        for sub in seq:
+            yield sub
+        if len(seq) > 2:
+            for i in range(len(seq)):
+                yield {"seq": seq[:i] + seq[i + 1:]}
+        for i, sub in enumerate(seq):
+            for sub2 in shrinks(sub):
+                yield {"seq": seq[:i] + [sub2] + seq[i + 1:]}
+        return
     o = case.get("o") or {}
     if "sheets" in case:
         sh = case["sheets"]
@@ -662,6 +792,8 @@ def shrinks(case):
 
 def fingerprint_view(case):
     """string-token indices renumbered by first occurrence (they only say which cells hold the same text)"""
+    if "seq" in case:
+        return {"seq": [fingerprint_view(sub) for sub in case["seq"]]}
     if "sheets" not in case:
         return case
     ren = {}
@@ -693,7 +825,7 @@ def _cell_eq(s, b):
     if s is None or b is None:
         return s is None and b is None
     if isinstance(s, str) or isinstance(b, str):
-        return s == b
+        return s == b or (isinstance(b, str) and s == b[:1])       # a data cell kind also stands for the header cell of that kind
     if s[0] == "s" and isinstance(s[1], int):
         return b[0] in ("s", "s2")
     if s == _SIMPLE_TYPED:
@@ -710,6 +842,10 @@ def _grid_emb(s, b):
 def embeds(small, big):
     """Is the failing case `big` explained by the minimal shape `small`? (rows / cells / blocks / units of small are a
     subsequence of big's, options of small are present in big)"""
+    if "seq" in small:
+        return "seq" in big and _sub(small["seq"], big["seq"], embeds)
+    if "seq" in big:
+        return any(embeds(small, sub) for sub in big["seq"])
     if ("sheets" in small) != ("sheets" in big):
         return False
     so, bo = small.get("o") or {}, big.get("o") or {}
@@ -718,6 +854,12 @@ def embeds(small, big):
             return False
         if k in ("cr", "rr"):
             if sorted(e[-1] for e in v) != sorted(e[-1] for e in bo[k]):
+                return False
+        elif k == "html" and isinstance(v, dict) and isinstance(bo[k], dict):
+            a, b = H.html_spelling(v), H.html_spelling(bo[k])
+            if a["v"] != b["v"] or a["sec"] not in ("none", b["sec"]) or not set(a["omit"]) <= set(b["omit"]):
+                return False
+            if any(a.get(f) and not b.get(f) for f in H.HTML_FLAGS):
                 return False
         elif bo[k] != v:
             return False
@@ -864,6 +1006,16 @@ def text_cases(tier, fmt):
                 yield {"u": [["p", g1, "p"]], "o": {"html": v}}
                 for g2 in small:
                     yield {"u": [[g1, g2]], "o": {"html": v}}
+    if fmt in ("html", "epub"):
+        yield from _html_spelling_cases(quick, fmt, small)
+    # E: histories - two documents (thorough: also three, A B A) read one after the other in one process; the documents of a
+    #    history share one token source, so equal places hold different text
+    pool_ = small + empt + ([_tgrid(1, 1, "N")] if fmt in NEST_OK else [])
+    for g1 in pool_:
+        for g2 in pool_:
+            yield {"seq": [{"u": [[g1]]}, {"u": [[g2]]}]}
+            if not quick:
+                yield {"seq": [{"u": [["p", g1]]}, {"u": [[g2, "p"]]}, {"u": [["p", g1]]}]}
     if fmt == "docx":
         # every cell's content inside a block-level content control (form tables: w:tc/w:sdt/w:sdtContent/w:p)
         do = {"cell_sdt": True}
@@ -881,6 +1033,92 @@ def text_cases(tier, fmt):
                 yield {"u": [["p", g1, "p"]], "o": {"rtf": ro}}
                 for g2 in small:
                     yield {"u": [[g1, g2]], "o": {"rtf": ro}}
+
+
+def _th_patterns(r, c):
+    """the usual header layouts of an r x c table: first row, first column, both, everything"""
+    yield [["Th" if i == 0 else "T" for j in range(c)] for i in range(r)]
+    yield [["Th" if j == 0 else "T" for j in range(c)] for i in range(r)]
+    yield [["Th" if i == 0 or j == 0 else "T" for j in range(c)] for i in range(r)]
+    yield [["Th"] * c for i in range(r)]
+
+
+def _spellings(fmt, nrows, quick):
+    """every combination of row sections x omitted end tags (c cells, r rows, s sections) a table of nrows rows can have"""
+    for sec in H.HTML_SECTIONS:
+        if sec in ("head", "foot", "headfoot") and nrows < 2:
+            continue
+        for omit in ("", "c", "r", "cr") + (("s", "cs", "rs", "crs") if sec != "none" else ()):
+            if omit and fmt == "epub":
+                continue
+            sp = {}
+            if sec != "none":
+                sp["sec"] = sec
+            if omit:
+                sp["omit"] = omit
+            yield sp
+
+
+def _sp(sp):
+    return dict({"v": "bare"}, **sp)
+
+
+def _html_spelling_cases(quick, fmt, small):
+    """Markup spellings of one and the same table (family H): which cells are <th> (kind suffix h) x row sections x omitted
+    optional end tags x secondary spellings (white space between tags, attributes, upper-case names, colgroup, </p> omitted)"""
+    html = fmt == "html"
+    # H1: every td/th assignment of the small grids under every sections x omission spelling
+    if quick:
+        grids = list(_grid_space(True, ["T", "Th"]))
+    else:
+        grids = list(_grid_space(False, ["T", "Th"]))
+    for r, c in _shapes(3 if quick else 4):
+        grids += list(_th_patterns(r, c))
+    for g in grids:
+        if not any(k.endswith("h") for row in g for k in row) and len(g) * len(g[0]) > 4:
+            continue
+        for sp in _spellings(fmt, len(g), quick):
+            yield {"u": [[g]], "o": {"html": _sp(sp)}}
+    # H2: cell contents (empty, two paragraphs, nested table; as data and as header cell) in header layouts
+    kinds = ["E", "P", "N", "Eh", "Ph", "Nh"]
+    sps = [{}, {"sec": "head"}] + ([{"omit": "c"}, {"omit": "cr"}, {"sec": "headfoot", "omit": "crs"}, {"v": "p", "omit": "cr"}, {"v": "p", "omit": "crp"}] if html else [{"v": "p"}])
+    for r, c in _shapes(2 if quick else 3):
+        bases = [_tgrid(r, c)] + list(_th_patterns(r, c))
+        for base in bases:
+            for i in range(r):
+                for j in range(c):
+                    for k in kinds:
+                        g = [list(row) for row in base]
+                        g[i][j] = k
+                        for sp in sps:
+                            if sp.get("sec") in ("head", "headfoot") and r < 2:
+                                continue
+                            yield {"u": [[g]], "o": {"html": _sp(sp)}}
+    # H3: secondary spellings, one at a time and all together
+    flags = [{"ws": 1}, {"cg": 1}] + ([{"attr": 1}, {"upper": 1}, {"ws": 1, "cg": 1, "attr": 1, "upper": 1}] if html else [{"ws": 1, "cg": 1}])
+    base_sp = [{}, {"sec": "headfoot"}, {"sec": "bodies"}] + ([{"omit": "cr"}, {"omit": "crs", "sec": "headfoot"}, {"omit": "crs", "sec": "bodies"}] if html else [])
+    fgrids = [g for g in grids if len(g) * len(g[0]) <= (4 if quick else 6)] + [_tgrid(r, c) for r, c in _shapes(2)]
+    for g in fgrids:
+        for fl in flags:
+            for sp in base_sp:
+                if sp.get("sec") == "headfoot" and len(g) < 2:
+                    continue
+                yield {"u": [[g]], "o": {"html": _sp(dict(sp, **fl))}}
+    # H4: neighbours (paragraphs around, adjacent tables) of tables with row-header / column-header cells
+    hsmall = [p for r, c in _shapes(2) for p in list(_th_patterns(r, c))[:2]]
+    nsps = [{}, {"sec": "head"}] + ([{"omit": "c"}, {"omit": "cr"}, {"omit": "crs", "sec": "body"}, {"omit": "cr", "ws": 1}] if html else [{"ws": 1}])
+    for sp in nsps:
+        for g1 in hsmall:
+            if sp.get("sec") == "head" and len(g1) < 2:
+                continue
+            yield {"u": [["p", g1, "p"]], "o": {"html": _sp(sp)}}
+            for g2 in hsmall + small[:1]:
+                if sp.get("sec") == "head" and len(g2) < 2:
+                    continue
+                yield {"u": [[g1, g2]], "o": {"html": _sp(sp)}}
+                yield {"u": [[g1, "p", g2]], "o": {"html": _sp(sp)}}
+                if fmt == "epub":
+                    yield {"u": [[g1], [g2]], "o": {"html": _sp(sp)}}
 
 
 # ---- spreadsheets
@@ -964,7 +1202,8 @@ def sheet_cases(tier, fmt):
               ([[None, ["s", 1]], [["s", 2], ["s", 3]]], 0, 0), ([[["s", 0], None], [["s", 2], ["s", 3]]], 0, 1),
               ([[["s", 0], ["s", 1]], [None, ["s", 3]]], 1, 0), ([[["s", 0], ["s", 1]], [["s", 2], None]], 1, 1),
               ([[["s", 0]], [None]], 1, 0), ([[["s", 0]], [["s", 1]], [None]], 2, 0)]
-    wopts = {"xlsx": [None, {"inline_strings": True}], "xls": [None, {"rk": True}, {"datemode": 1}, {"blank_records": True}], "ods": [None]}[fmt]
+    wopts = {"xlsx": [None, {"inline_strings": True}, {"date1904": True}],
+             "xls": [None, {"rk": True}, {"datemode": 1}, {"blank_records": True}], "ods": [None]}[fmt]
     for v in values:
         if not _typed_ok(fmt, v):
             continue
@@ -972,9 +1211,9 @@ def sheet_cases(tier, fmt):
             g = [list(row) for row in frame]
             g[i][j] = v
             for w in (wopts if (i, j) == (1, 1) or not quick else wopts[:1]):
-                if w and "datemode" in w and not _has_date(v):
+                if w and _is_datesys(w) and not _has_date(v):
                     continue
-                if w and "datemode" in w and _before_1904(v):
+                if w and _is_datesys(w) and _before_1904(v):
                     continue
                 if w and "rk" in w and v[0] != "i":
                     continue
@@ -990,7 +1229,7 @@ def sheet_cases(tier, fmt):
                 yield {"sheets": [[[["s", 0], ["s", 1]], [v1, ["s", 2]], [v2, ["s", 3]]]]}
     # writer options on shape grids
     for w in wopts[1:]:
-        if "datemode" in w or "rk" in w:
+        if _is_datesys(w) or "rk" in w:
             continue
         for kg in _grid_space(True, ["S", "E"], 3, 4):
             yield {"sheets": [_S(kg)], "o": {"w": w}}
@@ -1033,6 +1272,30 @@ def sheet_cases(tier, fmt):
             for base in (_S(_tgrid(1, 1, "S")), _S(_tgrid(2, 2, "S"))):
                 yield {"sheets": [base], "o": {"rep": {"cols": 1000000, "rows": 1000000, "on": "empty"}}}
                 yield {"sheets": [base], "o": {"rep": {"cols": 16384, "rows": 1048576, "on": "empty"}}}
+    # T: falsy typed values (0, 0.0, FALSE, zero duration, midnight, formulas giving them) as the only content of the trailing
+    #    rows / columns of the used range
+    base = [[["s", 0], ["s", 1]], [["s", 2], ["s", 3]]]
+    for z in FALSY if not quick else FALSY[:5]:
+        if not _typed_ok(fmt, z):
+            continue
+        yield {"sheets": [base + [[z, z]]]}
+        yield {"sheets": [base + [[z]]]}
+        yield {"sheets": [base + [[None, z]]]}
+        yield {"sheets": [base + [[z, z], [z, z]]]}
+        yield {"sheets": [[row + [z] for row in base]]}
+        yield {"sheets": [[base[0]] + [row + [z] for row in base[1:]]]}
+        yield {"sheets": [[row + [z, z] for row in base]]}
+        yield {"sheets": [[row + [z] for row in base] + [[z, z, z]]]}
+        yield {"sheets": [[[["s", 0]], [z]]]}
+        yield {"sheets": [[[["s", 0], z]]]}
+        if not quick:
+            for z2 in FALSY:
+                if _typed_ok(fmt, z2) and z2 != z:
+                    yield {"sheets": [base + [[z, z2]]]}
+                    yield {"sheets": [[base[0] + [z], base[1] + [z2]]]}
+    # F: histories - workbooks read one after the other in one process (see evaluate); the workbooks of a history share one
+    #    token source, so the same string-table index / cell address holds different text in each
+    yield from _sheet_histories(quick, fmt)
     # E: several sheets
     pool_ = [_S(_tgrid(1, 1, "S")), _S(_tgrid(2, 2, "S")), _S(_tgrid(1, 2, "S")), []]
     for a in pool_:
@@ -1050,6 +1313,89 @@ def _sheet_shapes_thorough():
             yield from _full(r, c, ["S", "E"])
         else:
             yield from _dev(r, c, "S", ["E"], 2)
+
+
+FALSY = [["i", 0], ["f", 0.0], ["b", False], ["dur", 0], ["tm", "00:00:00"], ["fml", "=1-1", ["i", 0]], ["fml", "=1=2", ["b", False]],
+         ["fml", "=0*1.5", ["f", 0.0]]]
+DATE_SYSTEM_1904 = {"xls": {"datemode": 1}, "xlsx": {"date1904": True}}     # writer option selecting the 1904 date system
+_HFRAMES = [([[["s", 0], ["s", 1]], [["s", 2], None]], 1, 1), ([[["s", 0]], [None]], 1, 0)]
+
+
+def _is_datesys(w):
+    return "datemode" in w or "date1904" in w
+
+
+def _shift_days(v, days):
+    """the date / date-time cell `days` later (formula cells: their cached value)"""
+    import datetime
+    if v[0] == "fml":
+        return ["fml", v[1], _shift_days(v[2], days)]
+    if v[0] == "d":
+        return ["d", (datetime.date.fromisoformat(v[1]) + datetime.timedelta(days=days)).isoformat()]
+    return ["dt", (datetime.datetime.fromisoformat(v[1]) + datetime.timedelta(days=days)).isoformat()]
+
+
+def _stored_number(v):
+    """the plain number cell that stores the same number as the date / time / duration / boolean cell v (1900 date system)"""
+    from verif.gen import biff8
+    if v[0] == "b":
+        return ["i", 1 if v[1] else 0]
+    x = biff8.cell_number(v, 0)[0]
+    return ["i", int(x)] if float(x).is_integer() else ["f", float(x)]
+
+
+def _in_frame(frame, i, j, v, w=None):
+    g = [list(row) for row in frame]
+    g[i][j] = v
+    case = {"sheets": [g]}
+    if w:
+        case["o"] = {"w": dict(w)}
+    return case
+
+
+def _sheet_histories(quick, fmt):
+    values = [v for v in TYPED_QUICK + ([] if quick else TYPED_MORE) if _typed_ok(fmt, v)]
+    frames = _HFRAMES
+    w1904 = DATE_SYSTEM_1904.get(fmt)
+    # F1: the two date systems. A (1900 system) and B (1904 system, the date 1462 days later) store the SAME serial number;
+    #     A and C (1904 system, same date) store different serials for the same date. Both orders; thorough also A B A / B A B.
+    if w1904:
+        for v in values:
+            if not _has_date(v) or _before_1904(v) or _shift_days(v, 0) != v:
+                continue
+            for frame, i, j in frames:
+                a = _in_frame(frame, i, j, v)
+                b = _in_frame(frame, i, j, _shift_days(v, 1462), w1904)
+                c = _in_frame(frame, i, j, v, w1904)
+                for x, y in ((a, b), (b, a), (a, c), (c, a), (b, c), (c, b)):
+                    yield {"seq": [x, y]}
+                    if not quick:
+                        yield {"seq": [x, y, x]}
+    # F2: the same stored number under another cell format: a date / time / duration / boolean cell and the plain number cell
+    #     holding its serial (xls, xlsx; an ODS cell stores the typed value itself)
+    if fmt in ("xls", "xlsx"):
+        for v in values:
+            c = v[2] if v[0] == "fml" else v
+            if c[0] not in ("d", "dt", "tm", "dur", "b") or (c[0] in ("d", "dt") and c[1] < "1900-03-01"):
+                continue
+            for frame, i, j in frames[:1] if quick else frames:
+                a, b = _in_frame(frame, i, j, v), _in_frame(frame, i, j, _stored_number(c))
+                yield {"seq": [a, b]}
+                yield {"seq": [b, a]}
+    # F3: every ordered pair of cell kinds (quick: one representative each; thorough: the whole quick lattice) at one address
+    reps = [[k, x] for k, x in _CANON.items()] + [["s", 0], ["fml", "=1+1", ["i", 2]]]
+    reps = [v for v in (reps if quick else TYPED_QUICK + [["s", 0]]) if _typed_ok(fmt, v)]
+    frame, i, j = frames[0]
+    for v1 in reps:
+        for v2 in reps:
+            yield {"seq": [_in_frame(frame, i, j, v1), _in_frame(frame, i, j, v2)]}
+    # F4: string tables / sheet lists of different length
+    books = [[_S(_tgrid(1, 1, "S"))], [_S(_tgrid(2, 2, "S"))], [_S(_tgrid(1, 2, "S")), _S(_tgrid(2, 1, "S"))], [_S([["S", "S"], ["E", "S"]])]]
+    for b1 in books:
+        for b2 in books:
+            yield {"seq": [{"sheets": b1}, {"sheets": b2}]}
+            if not quick:
+                yield {"seq": [{"sheets": b1}, {"sheets": b2}, {"sheets": b1}]}
 
 
 def _has_date(v):
@@ -1131,9 +1477,17 @@ def run(ctx):
                    "vectors; paragraph / adjacent-table / two-unit contexts over all pairs of small grids; ODF header rows and repeat "
                    "attributes 1,2,100,101 on every cell and row; HTML spellings; RTF writer spellings; spreadsheets: all string/empty "
                    "grids, all header rows over a 6-symbol alphabet, typed value lattice x 7 positions, gaps and ODS repeats 1,2,100,101, "
-                   "sheet sequences) rendered by the reference writers and extracted by the real readers; distinct_nontrivial = distinct "
+                   "sheet sequences, trailing rows / columns of falsy typed values; HTML/EPUB spellings: every td/th assignment x row sections x "
+                   "omitted optional end tags x white space / attributes / upper case / colgroup; histories: two (thorough: three) documents read one "
+                   "after the other in one process - the two date systems of xls / xlsx with equal serials, equal stored numbers under other cell "
+                   "formats, all ordered pairs of cell kinds, string tables of different size, pairs of text-format tables) rendered by the reference writers and extracted by the real readers; distinct_nontrivial = distinct "
                    "(format, failed clauses, returned dims) outcome classes",
-           "per_format": per_fmt, "failing_by_format_clause": dict(sorted(fail_fmt.items())), "bounds": {"tier": ctx.tier}}
+           "per_format": per_fmt, "failing_by_format_clause": dict(sorted(fail_fmt.items())),
+           "bounds": {"tier": ctx.tier, "grid_full_upto": "2x2" if ctx.quick else "6 cells", "grid_max": "3x3" if ctx.quick else "4x4",
+                      "html_th_assignments": "all of every grid up to " + ("2x2" if ctx.quick else "6 cells"), "html_sections": list(H.HTML_SECTIONS),
+                      "html_omitted_end_tags": "every subset of {cells, rows, sections}; </p> in cells", "html_flags": list(H.HTML_FLAGS),
+                      "history_length": 2 if ctx.quick else 3, "date_systems": ["1900", "1904"], "date_system_shift_days": 1462,
+                      "falsy_values": len(FALSY[:5] if ctx.quick else FALSY), "repeats": list(REPEATS)}}
     return {"coverage": cov, "failures": fails, "harness_errors": herr,
             "assumptions": [
                 "a nested table may come back inside its outer cell, as a 1x1 grid of its own (before or after the outer table's successors), or both",
@@ -1145,5 +1499,10 @@ def run(ctx):
                 "datetime object or any string datetime.fromisoformat parses to the source value; time / duration = time, timedelta, ISO 8601 "
                 "duration, [h]:mm:ss text, number of seconds or day fraction equal to the source; error = any string starting with '#'; formula = its cached value",
                 "RTF / DOCX have no table container: the writers keep two adjacent tables apart by the empty paragraph Word itself forces",
+                "histories: what a document's tables are does not depend on the documents read before it in the same process; each document of a "
+                "history is judged by the single-document clauses, a failure that needs the history keeps the history as its minimal case",
+                "HTML: <th> and <td> are both cells of the grid; thead / tbody / tfoot keep source order (tfoot is written last); omitting the end "
+                "tags HTML5 13.1.2.4 makes optional does not change the table",
+                "spreadsheets: a cell holding 0, 0.0, FALSE, a zero duration or midnight is a used cell (it counts for the used range)",
                 "ODF number-columns-repeated / number-rows-repeated on text and draw tables mean n copies of the cell / row (ODF 1.2 part 1, 19.675/19.679)",
             ]}
